@@ -183,6 +183,7 @@ pub fn run_in_process_pool(argv: &[String], dec: Decider, workers: usize, pool: 
 pub fn run_child(bin: &Path, argv_tail: &[String], s: &Scratch, out: &OutFault) -> (CliResult, Option<PathBuf>) {
     let mut args: Vec<String> = argv_tail.to_vec();
     let mut out_path: Option<PathBuf> = None;
+    let mut enospc_link: Option<PathBuf> = None;
     match out {
         OutFault::None | OutFault::Efbig(_) => {
             let p = s.path("out.txt");
@@ -191,8 +192,14 @@ pub fn run_child(bin: &Path, argv_tail: &[String], s: &Scratch, out: &OutFault) 
             out_path = Some(p);
         }
         OutFault::Enospc => {
+            // never hand the device node itself to the code under test: a tool that writes through
+            // a temporary file and renames it over its target would replace /dev/full (the checks
+            // run as root). A symbolic link in the scratch directory is followed by open(2) and
+            // merely replaced by rename(2) / unlink(2).
+            let p = enospc_target(s, "enospc-out.txt");
             args.push("-o".into());
-            args.push("/dev/full".into());
+            args.push(p.to_string_lossy().to_string());
+            enospc_link = Some(p);
         }
         OutFault::NoDir => {
             args.push("-o".into());
@@ -268,6 +275,11 @@ pub fn run_child(bin: &Path, argv_tail: &[String], s: &Scratch, out: &OutFault) 
         Some(0) => {
             let text = if let Some(p) = &out_path {
                 std::fs::read_to_string(p).ok()
+            } else if let Some(p) = enospc_link.as_ref().filter(|p| !still_link_to_full(p)) {
+                // the tool replaced the link by a file of its own (e.g. temp file + rename): the
+                // result did reach the requested path, and is judged like any other
+                out_path = Some(p.clone());
+                std::fs::read_to_string(p).ok()
             } else if !out.uses_stdout() && !matches!(out, OutFault::Enospc | OutFault::NoDir | OutFault::IsDir) {
                 Some(String::from_utf8_lossy(&o.stdout).to_string())
             } else {
@@ -280,6 +292,34 @@ pub fn run_child(bin: &Path, argv_tail: &[String], s: &Scratch, out: &OutFault) 
         None => CliResult::Panic(format!("killed by signal: {}", first_line(&stderr))),
     };
     (res, out_path)
+}
+
+/// A symbolic link `<scratch>/<name>` -> /dev/full: every write(2) through it fails with ENOSPC.
+pub fn enospc_target(s: &Scratch, name: &str) -> PathBuf {
+    let p = s.path(name);
+    let _ = std::fs::remove_file(&p);
+    std::os::unix::fs::symlink("/dev/full", &p).expect("symlink to /dev/full");
+    p
+}
+
+/// Is the path still the link to the device (and not something the code under test put there)?
+pub fn still_link_to_full(p: &Path) -> bool {
+    std::fs::symlink_metadata(p).map(|m| m.file_type().is_symlink()).unwrap_or(false)
+}
+
+/// Harness precondition: /dev/full is the character device (1, 7) and refuses writes with ENOSPC.
+pub fn check_dev_full() -> Result<(), String> {
+    use std::os::unix::fs::{FileTypeExt, MetadataExt};
+    let m = std::fs::metadata("/dev/full").map_err(|e| format!("/dev/full: {e}"))?;
+    if !m.file_type().is_char_device() || m.rdev() != libc::makedev(1, 7) {
+        return Err("/dev/full is not the character device (1, 7) - restore it with: rm -f /dev/full && mknod -m 666 /dev/full c 1 7".into());
+    }
+    use std::io::Write;
+    let mut f = std::fs::OpenOptions::new().write(true).open("/dev/full").map_err(|e| format!("/dev/full: {e}"))?;
+    match f.write(b"x") {
+        Err(e) if e.raw_os_error() == Some(libc::ENOSPC) => Ok(()),
+        other => Err(format!("a write to /dev/full did not fail with ENOSPC: {other:?}")),
+    }
 }
 
 /// Child process printing to stdout (no -o), no fault.
